@@ -41,6 +41,13 @@ InitRead(i) == G.read[i]        \* [k |-> "None"|"Unknown"|"All"|"Set", vs |-> <
 Discs    == {Disc(i) : i \in Ids}
 Fails    == Rng(G.fails)        \* fault injection: jobs whose exec returns Err
 Panics   == Rng(G.panics)       \* fault injection: jobs whose exec panics
+\* dataflow (C01): items 1..G.nitems; Reads(j)/Writes(j) = items job j's exec reads / writes (observed);
+\* CanonRf(j)[k] = the job whose write the k-th read of j sees in the canonical (sequential) build, 0 = none
+HasFlow  == "nitems" \in DOMAIN G
+Items    == IF HasFlow THEN 1..G.nitems ELSE {}
+ReadsOf(j)  == IF HasFlow THEN G.reads[j] ELSE <<>>
+WritesOf(j) == IF HasFlow THEN Rng(G.writes[j]) ELSE {}
+CanonRf(j)  == IF HasFlow THEN G.canonrf[j] ELSE <<>>
 AnyFault == IF "anyfault" \in DOMAIN G THEN G.anyfault ELSE FALSE
                                 \* fault injection: any one job may fail or panic (at most one fault)
 
@@ -61,10 +68,14 @@ VARIABLES
   batch,     \* successes to pass to handle_success, in order
   sawErr,    \* read_completions has seen an Err in this call
   abort,     \* abort_queued_jobs
-  err        \* "none" or the text of a scheduler panic
+  err,       \* "none" or the text of a scheduler panic
+  lastw,     \* lastw[x]: the job whose exec last wrote item x (0 = nobody yet)
+  rfbad      \* history: some exec started while an item it reads held a non-canonical version
+
+Flow == <<lastw, rfbad>>
 
 vars == <<pending, racc, launched, count, succ, jobCount, queue, active, decd,
-          finished, bad, chan, mainPc, batch, sawErr, abort, err>>
+          finished, bad, chan, mainPc, batch, sawErr, abort, err, lastw, rfbad>>
 
 -----------------------------------------------------------------------------
 (* Access::check and can_run / is_dep_fulfilled (workload.rs:477-537) *)
@@ -99,6 +110,8 @@ Init ==
   /\ sawErr = FALSE
   /\ abort = FALSE
   /\ err = "none"
+  /\ lastw = [x \in Items |-> 0]
+  /\ rfbad = FALSE
 
 -----------------------------------------------------------------------------
 (* Main thread *)
@@ -113,6 +126,7 @@ LoopExit ==
             ELSE "none"
   /\ UNCHANGED <<pending, racc, launched, count, succ, jobCount, queue, active, decd,
                  finished, bad, chan, batch, sawErr, abort>>
+  /\ UNCHANGED Flow
 
 \* mark a set of jobs running and queue them (workload.rs:630-662)
 LaunchSet(L) ==
@@ -131,6 +145,7 @@ Wave ==
   /\ sawErr' = FALSE
   /\ UNCHANGED <<pending, racc, count, succ, jobCount, active, decd, finished, bad, chan,
                  batch, abort, err>>
+  /\ UNCHANGED Flow
 
 \* one message taken off the channel by read_completions (workload.rs:796-851)
 TakeMsg(j) ==
@@ -153,6 +168,7 @@ RecvFirst ==
   /\ mainPc' = "drain"
   /\ UNCHANGED <<pending, racc, launched, count, succ, jobCount, queue, active, decd,
                  finished, bad, abort>>
+  /\ UNCHANGED Flow
 
 Drain ==
   /\ mainPc = "drain" /\ err = "none"
@@ -161,6 +177,7 @@ Drain ==
   /\ chan' = Tail(chan)
   /\ UNCHANGED <<pending, racc, launched, count, succ, jobCount, queue, active, decd,
                  finished, bad, mainPc, abort>>
+  /\ UNCHANGED Flow
 
 \* try_recv found nothing more: return Err if any was seen, else handle the batch
 DrainEndWith(emptyRequired) ==
@@ -169,6 +186,7 @@ DrainEndWith(emptyRequired) ==
   /\ mainPc' = IF sawErr THEN "err" ELSE "handle"
   /\ UNCHANGED <<pending, racc, launched, count, succ, jobCount, queue, active, decd,
                  finished, bad, chan, batch, sawErr, abort, err>>
+  /\ UNCHANGED Flow
 
 DrainEnd == DrainEndWith(TRUE)
 
@@ -215,6 +233,7 @@ Handle ==
        /\ racc' = SeqRewrite(Rewrites(h), racc)
        /\ batch' = Tail(batch)
   /\ UNCHANGED <<launched, queue, active, decd, finished, bad, chan, mainPc, sawErr, abort>>
+  /\ UNCHANGED Flow
 
 HandleEnd ==
   /\ mainPc = "handle" /\ err = "none"
@@ -222,6 +241,7 @@ HandleEnd ==
   /\ mainPc' = "loop"
   /\ UNCHANGED <<pending, racc, launched, count, succ, jobCount, queue, active, decd,
                  finished, bad, chan, batch, sawErr, abort, err>>
+  /\ UNCHANGED Flow
 
 -----------------------------------------------------------------------------
 (* Worker closure (workload.rs:668-727) *)
@@ -237,6 +257,8 @@ StartFrom(j, poppable) ==
        ELSE active' = active \cup {j}
   /\ UNCHANGED <<pending, racc, launched, count, succ, jobCount, decd, finished, bad, chan,
                  mainPc, batch, sawErr, abort, err>>
+  /\ lastw' = lastw
+  /\ rfbad' = (rfbad \/ (~abort /\ \E k \in DOMAIN ReadsOf(j) : lastw[ReadsOf(j)[k]] # CanonRf(j)[k]))
 
 Start(j) == StartFrom(j, Poppable)
 
@@ -260,6 +282,8 @@ Finish(j, ok, panicked) ==
             /\ err' = IF \E d \in Discs : count[d] < Cardinality({i \in ds : Disc(i) = d})
                       THEN "counter underflow" ELSE err
   /\ UNCHANGED <<pending, racc, launched, succ, jobCount, queue, chan, mainPc, batch, sawErr>>
+  /\ lastw' = [x \in Items |-> IF ok /\ x \in WritesOf(j) THEN j ELSE lastw[x]]
+  /\ rfbad' = rfbad
 
 FinishAny(j) ==
   \/ j \notin Fails \cup Panics /\ Finish(j, TRUE, FALSE)
@@ -272,6 +296,7 @@ Send(j) ==
   /\ chan' = Append(chan, j)
   /\ UNCHANGED <<pending, racc, launched, count, succ, jobCount, queue, active, finished,
                  bad, mainPc, batch, sawErr, abort, err>>
+  /\ UNCHANGED Flow
 
 -----------------------------------------------------------------------------
 Terminal == mainPc \in {"done", "unable", "err"} \/ err # "none"
@@ -309,6 +334,10 @@ NoUnable == (Fails \cup Panics = {} /\ ~AnyFault) => mainPc # "unable"
 \* that touches something j touches (one of them writing) and is canonically earlier has
 \* finished its exec.  (By symmetry a canonically later one cannot have started.)
 OrderOK == \A j \in active : Before(j) \subseteq finished
+
+\* C01 (Confluence): every exec sees, for each item it reads, the version written by the same job as in
+\* the canonical sequential build -- so every job computes from the same inputs in every schedule
+ReadsFromCanonical == ~rfbad
 
 \* a job never executes twice / is never in two worker stages at once
 StagesDisjoint ==
